@@ -92,6 +92,7 @@ def _getdistances(rep):
     """the distance tables handed to the callees are those of the periodic search of the structure (contract of get_distances, shared with C10)"""
     from props import C10
     C10._getdistances(rep)
+    C10._wrapper(rep)
 
 def replay_key(ob):
     return ob.id.split(".")[0]
